@@ -115,19 +115,25 @@ class Table:
 
 
 def script(cid, case):
-    L = ["CASE " + cid, "NEW " + hx(b"prog")]
+    L = ["CASE " + cid, "NEW " + hx(b"prog"), "GRPD 9"]
     slot = 0
-    last_ok_slot_possible = []
-    for c in case["calls"]:
+    fetched = set()
+    for ci, c in enumerate(case["calls"]):
         if c[0] == "d":
             _, kind, g, name = c
-            if g >= 0:
+            # a group handle is fetched once and then reused (`auto& g = parser.group("x"); ... g.option(...)`),
+            # in every third declaration it is fetched again from the parser
+            if g >= 0 and (g not in fetched or ci % 3 == 2):
                 L.append("GRP %d %s" % (g, hx(b"g%d" % (g + 1))))
+                fetched.add(g)
+            if g == -2 and ci % 2 == 0:
+                g = 9     # the default group through a handle taken when the parser was created
             L.append("%s %d %d %s" % (KIND[kind], g, slot, hx(name)))
             L.append("LASTOK %d" % slot)
             slot += 1
         elif c[0] == "g":
             L.append("GRP %d %s" % (c[1], hx(b"g%d" % (c[1] + 1))))
+            fetched.add(c[1])
         elif c[0] == "s":
             L.append("SN -1 " + hx(c[1]))
         elif c[0] == "e":
